@@ -301,6 +301,11 @@ class Ctx:
         for m, n in sorted(self.known.items()):
             f = self.findings[m]
             print(f"KNOWN-FINDING: property={self.prop} {m}: {f.get('what', '')} (observed {n}x this run)")
+        for m, f in sorted(self.findings.items()):
+            # open findings that this run's workload happened not to reproduce are still listed (they suppress nothing
+            # here: nothing matching them was seen)
+            if f.get("status") == "open" and m not in self.known:
+                print(f"KNOWN-FINDING: property={self.prop} {m}: {f.get('what', '')} (listed, not observed in this run)")
         print(f"[{self.prop}] tier={self.tier} seed={self.seed} evaluations={self.evaluations} "
               f"distinct_nontrivial={len(self.sigs)} violations={len(self.violations)} "
               f"known={sum(self.known.values())} may={self.may} inconclusive={len(self.inconclusive)} "
